@@ -73,3 +73,42 @@ Definition run_final (t1 : tetra) (e1 : fV4) (X1 : M4) (t2 : tetra) (e2 : fV4) (
 
 Definition run_pair t1 e1 X1 t2 e2 X2 E1 E2 perm :=
   (run_stages t1 e1 X1 t2 e2 X2 E1 E2 perm, run_final t1 e1 X1 t2 e2 X2 E1 E2 perm).
+
+(** ** Isolated stages: every function of the pipeline run on the inputs the
+    implementation itself fed to that stage (so that stages made only of scalar
+    IEEE operations can be compared bit for bit, independently of the BLAS-based
+    stages before them). *)
+Definition mk_v2 (a b : Fl) : V2 Fl := mkV2 a b.
+Definition mk_hp (a b c d : Fl) : HP Fl := mkHP (mkV2 a b) (mkV2 c d).
+Definition enc_res_pts (r : res (list (V2 Fl))) : list (list Fl) :=
+  match r with Ok p => map enc2 p | Err e => [[ecode e]] end.
+
+Definition iso_plane (X1 X2 : M4) (e1 e2 : fV4) (E1 E2 : Fl) : list Fl :=
+  let '(plane, same) := contact_plane X1 X2 e1 e2 E1 E2 in enc4 plane ++ [b2f same].
+Definition iso_same (e : fV4) (t : tetra) : list (list Fl) :=
+  let '(pl, poly) := handle_same_tetrahedron e t in enc4 pl :: map enc3 poly.
+(** [b; the 8 signed plane distances] *)
+Definition iso_pre (t1 t2 : tetra) (n : fV3) (d : Fl) : list Fl :=
+  let '(p0, p1, p2, p3) := plane_distances t1 n d in
+  let '(q0, q1, q2, q3) := plane_distances t2 n d in
+  [b2f (check_tetrahedra_intersect_contact_plane t1 t2 n d PRECHECK_TOL); p0; p1; p2; p3; q0; q1; q2; q3].
+Definition iso_basis (n : fV3) : list Fl :=
+  let '(x, y) := plane_basis_from_normal n in enc3 x ++ enc3 y.
+(** the 8 candidate rows (nan row = face parallel to the plane, skipped) and the
+    array make_halfplanes returns *)
+Definition iso_hp_candidates (X : list fV4) (pp x y : fV3) : list (list Fl) :=
+  map (fun Xi => enc_ohp (hp_row x y pp Xi)) X.
+Definition iso_make_halfplanes (X : list fV4) (pp x y : fV3) : list (list Fl) :=
+  match make_halfplanes X pp x y with Ok rows => map enc_ohp rows | Err e => [[ecode e]] end.
+Definition iso_intersect (hs : list (HP Fl)) : list (list Fl) := enc_res_pts (intersect_halfplanes hs).
+Definition iso_two (h1 h2 : HP Fl) : list Fl :=
+  match intersect_two_halfplanes h1 h2 with Some p => enc2 p | None => [] end.
+Definition iso_outside (h : HP Fl) (p : V2 Fl) : Fl := b2f (point_outside_of_halfplane h p).
+Definition iso_permute (pts : list (V2 Fl)) (perm : list nat) : list (list Fl) :=
+  enc_res_pts (permute pts perm).
+Definition iso_filter (pts : list (V2 Fl)) : list (list Fl) := map enc2 (filter_unique_points pts).
+Definition iso_project (vs : list (V2 Fl)) (x y pp : fV3) : list (list Fl) :=
+  map enc3 (project_polygon_to_3d vs x y pp).
+Definition iso_force (t : tetra) (e : fV4) (plane : fV4) (poly : list fV3) (E : Fl) : list Fl :=
+  let '(com, force, area) := compute_contact_force t e plane poly E in
+  enc3 com ++ enc3 force ++ [area].
